@@ -170,13 +170,16 @@ def SNet.graph (sn : SNet) (o : Opt) : Graph Rat :=
   { adj := fun u => (tbl.getD u []).map (·.1)
     w := fun u v => match (tbl.getD u []).find? (·.1 == v) with | some x => x.2 | none => 0 }
 
-/-- ids of the nodes nearest `p` (all of them, should there be a tie) -/
-def SNet.nearest (sn : SNet) (p : Pt Rat) : List Nat :=
+/-- ids of the nodes nearest `p` (all of them, should there be a tie).  On inexact data (`exact = false`)
+nodes whose distance exceeds the minimum by less than 2e-9 relative count as tied: the float distances the
+implementation compares cannot separate them. -/
+def SNet.nearest (sn : SNet) (p : Pt Rat) (exact : Bool := true) : List Nat :=
   match sn.pos with
   | [] => []
   | x :: xs =>
     let m := xs.foldl (fun m y => if sqDist p y.2 < m then sqDist p y.2 else m) (sqDist p x.2)
-    (sn.pos.filter fun y => sqDist p y.2 == m).map (·.1)
+    let lim := if exact then m else m * (1 + 4 * tol)
+    (sn.pos.filter fun y => sqDist p y.2 ≤ lim).map (·.1)
 
 /-- follow the chain of links from node `u`: each link must have the current node as one end -/
 def SNet.chainEnd (sn : SNet) : Nat → List Nat → Option Nat
@@ -196,12 +199,62 @@ structure Answer where
   startDistance : Rat
   endDistance : Rat
 
+/-- total distance (time: divided by the link's speed) between link end vertices and the positions of
+their end nodes; 0 when all junction vertices coincide exactly -/
+def SNet.gapBudget (sn : SNet) (o : Opt) : Rat :=
+  sn.links.foldl (fun acc l =>
+    match l.pts.head?, l.pts.getLast?, sn.pos.find? (·.1 == l.a), sn.pos.find? (·.1 == l.b) with
+    | some p, some q, some a, some b =>
+      let g := segLen p a.2 + segLen q b.2
+      acc + 2 * (match o with | .distance => g | .time => g / l.speed)
+    | _, _, _, _ => acc) 0
+
 /-- every link's end nodes lie at its end points (within the identification tolerance) -/
 def SNet.endsOk (sn : SNet) : Bool :=
   sn.links.all fun l =>
     match l.pts.head?, l.pts.getLast?, sn.pos.find? (·.1 == l.a), sn.pos.find? (·.1 == l.b) with
     | some p, some q, some a, some b => ptEqRat p a.2 && ptEqRat q b.2 && l.a != l.b
     | _, _, _, _ => false
+
+/-! ### which link ends are the same network node
+
+`newNode` identifies an end point with the NEAREST existing node when the two are `op.PointEquals`.
+In general the outcome depends on the order of the calls; it does not when the end points of the
+network form well separated clusters (`separated`): `PointEquals` restricted to them is an
+equivalence relation and every point is nearer to all points of its own class than to any other
+point.  Then (induction over the calls: each class has exactly one node, placed at its first
+member, and that node is the nearest node of every later member) the nodes ARE the classes, and
+the Spec demands exactly that of the implementation's node table (`identOk`). -/
+
+/-- the distinct end points of the links -/
+def SNet.endPoints (sn : SNet) : List (Pt Rat) :=
+  (sn.links.flatMap fun l => (l.pts.head?.toList ++ l.pts.getLast?.toList)).foldl
+    (fun acc p => if acc.any (fun q => q.x == p.x && q.y == p.y) then acc else p :: acc) []
+
+/-- greedy classes of `PointEquals`; `none` when it is not an equivalence on these points or the
+classes are not well separated -/
+def separated (ps : List (Pt Rat)) : Bool :=
+  let rec classes : Nat → List (Pt Rat) → List (List (Pt Rat))
+    | 0, _ => []
+    | _, [] => []
+    | fuel + 1, p :: r => (p :: r.filter (ptEqRat p)) :: classes fuel (r.filter fun q => !ptEqRat p q)
+  let cs := classes ps.length ps
+  -- every pair inside a class is equal, no pair across classes is
+  let equiv := cs.zipIdx.all fun (c, i) =>
+    c.all (fun p => c.all (ptEqRat p)) &&
+    cs.zipIdx.all fun (c', j) => i == j || c.all fun p => c'.all fun q => !ptEqRat p q
+  -- own class nearer than any other point
+  let sep := cs.zipIdx.all fun (c, i) => c.all fun p =>
+    let inMax := c.foldl (fun m q => rmax m (sqDist p q)) 0
+    cs.zipIdx.all fun (c', j) => i == j || c'.all fun q => inMax < sqDist p q
+  equiv && sep
+
+/-- on well separated end points: two link ends share a node iff they are `PointEquals` -/
+def SNet.identOk (sn : SNet) : Bool :=
+  if !separated sn.endPoints then true else
+  let ends := sn.links.flatMap fun l =>
+    (l.pts.head?.toList.map fun p => (p, l.a)) ++ (l.pts.getLast?.toList.map fun p => (p, l.b))
+  ends.all fun (p, i) => ends.all fun (q, j) => ptEqRat p q == (i == j)
 
 /-- the hypotheses of `bellmanFord_correct`, tested on the concrete oracle graph: targets in range,
 non-negative weights, and the neighbour lists are complete predecessor lists (symmetry) -/
@@ -228,7 +281,13 @@ def judgeQuery (sn : SNet) (o : Opt) (exact : Bool) (from_ to : Pt Rat) (ans : A
         let c := match o with | .distance => ans.distance | .time => ans.time
         match best with
         | none => some "route-between-unconnected-nodes"
-        | some b => if closeTo exact b c then none else some "cost-not-minimal"
+        | some b =>
+          if closeTo exact b c then none
+          -- links whose end vertices are only NEAR their end nodes (inside the identification tolerance) are
+          -- shorter than the heuristic's node-to-node distance by up to these gaps; an excess within the
+          -- total of the gaps is reported under its own name (known finding), anything larger is not
+          else if b < c && c - b ≤ sn.gapBudget o then some "cost-exceeds-the-minimum-by-less-than-the-identification-gaps"
+          else some "cost-not-minimal"
   let sd (s t : Nat) : Option String :=
     match sn.pos.find? (·.1 == s), sn.pos.find? (·.1 == t) with
     | some a, some b =>
@@ -236,7 +295,7 @@ def judgeQuery (sn : SNet) (o : Opt) (exact : Bool) (from_ to : Pt Rat) (ans : A
       else if !closeTo false (segLen to b.2) ans.endDistance then some "endDistance-wrong" else none
     | _, _ => some "node-unknown"
   if !graphOk G n then some "oracle-graph-violates-the-hypotheses-of-bellmanFord_correct" else
-  let cands := (sn.nearest from_).flatMap fun s => (sn.nearest to).map fun t => (s, t)
+  let cands := (sn.nearest from_ exact).flatMap fun s => (sn.nearest to exact).map fun t => (s, t)
   let res := cands.map fun (s, t) => match ok s t with | none => sd s t | some w => some w
   if res.isEmpty then some "no-node" else if res.any (·.isNone) then none else res.head?.join
 
